@@ -47,6 +47,9 @@ func (gen *generator) irConstant(t types.Type, old ast.Constant) (constant.Const
 	case *ast.NoCFIConst:
 		return gen.irNoCFIConst(t, old)
 	case *ast.GlobalIdent:
+		if err := checkIdentRef(old.Text()); err != nil {
+			return nil, err
+		}
 		ident := globalIdent(*old)
 		c, ok := gen.new.globals[ident]
 		if !ok {
@@ -241,6 +244,9 @@ func (gen *generator) irVectorConst(t types.Type, old *ast.VectorConst) (*consta
 // equivalent IR blockaddress constant.
 func (gen *generator) irBlockAddressConst(t types.Type, old *ast.BlockAddressConst) (*constant.BlockAddress, error) {
 	// Function.
+	if err := checkIdentRef(old.Func().Text()); err != nil {
+		return nil, err
+	}
 	funcName := globalIdent(old.Func())
 	v, ok := gen.new.globals[funcName]
 	if !ok {
@@ -251,6 +257,9 @@ func (gen *generator) irBlockAddressConst(t types.Type, old *ast.BlockAddressCon
 		return nil, errors.Errorf("invalid function type; expected *ir.Func, got %T", v)
 	}
 	// Basic block.
+	if err := checkIdentRef(old.Block().Text()); err != nil {
+		return nil, err
+	}
 	blockIdent := localIdent(old.Block())
 	// Add dummy basic block to track the name recorded by the AST. Resolve the
 	// proper basic block after translation of function bodies and assignment of
@@ -272,6 +281,9 @@ func (gen *generator) irBlockAddressConst(t types.Type, old *ast.BlockAddressCon
 // into an equivalent IR dso_local_equivalent constant.
 func (gen *generator) irDSOLocalEquivalentConst(t types.Type, old *ast.DSOLocalEquivalentConst) (*constant.DSOLocalEquivalent, error) {
 	// Function.
+	if err := checkIdentRef(old.Func().Text()); err != nil {
+		return nil, err
+	}
 	funcName := globalIdent(old.Func())
 	v, ok := gen.new.globals[funcName]
 	if !ok {
@@ -297,6 +309,9 @@ func (gen *generator) irDSOLocalEquivalentConst(t types.Type, old *ast.DSOLocalE
 // constant.
 func (gen *generator) irNoCFIConst(t types.Type, old *ast.NoCFIConst) (*constant.NoCFI, error) {
 	// Function.
+	if err := checkIdentRef(old.Func().Text()); err != nil {
+		return nil, err
+	}
 	funcName := globalIdent(old.Func())
 	v, ok := gen.new.globals[funcName]
 	if !ok {
